@@ -99,6 +99,14 @@ fn simpler_step(s: &Step) -> Vec<Step> {
         SubRead(j) => out.push(SubGet(*j)),
         UpgradeKeep(k) => out.push(UpgradeDrop(*k)),
         Park(j) => out.push(SubDrop(*j)),
+        CountsGuarded(i, n, m) => {
+            if *n > 0 {
+                out.push(CountsGuarded(*i, n - 1, *m));
+            }
+            if *m > 0 {
+                out.push(CountsGuarded(*i, *n, m - 1));
+            }
+        }
         CloneOwner(i) | DropOwner(i) | Downgrade(i) | Get(i) | Read(i) | ReadHold(i) | Subscribe(i) => {
             let _ = i;
         }
